@@ -1,0 +1,25 @@
+//go:build verif
+
+// Contracts for package iteru, checked by /verif (govc). Comment-only.
+// iter.Seq values are finite ghost sequences: seqlen(s), seqat(s, i).
+package iteru
+
+//@ func Every
+//@   property C12 C19
+//@   ensures result == forall(0, seqlen(seq), func(j int) bool { return seqat(seq, j) })
+//@   loop 0:
+//@     invariant forall(0, idx_, func(j int) bool { return seqat(seq, j) })
+
+//@ func MinFunc
+//@   property C11 C19
+//@   panics when seqlen(it) == 0
+//@   ensures exists(0, seqlen(it), func(j int) bool { return result == seqat(it, j) })
+//@   ensures forall(0, seqlen(it), func(j int) bool { return cmp(result, seqat(it, j)) <= 0 })
+//@   requires forall(func(a T) bool { return cmp(a, a) == 0 })
+//@   requires forall(func(a T, b T, c T) bool { return cmp(a, b) <= 0 && cmp(b, c) <= 0 ==> cmp(a, c) <= 0 })
+//@   requires forall(func(a T, b T) bool { return cmp(a, b) < 0 ==> cmp(b, a) > 0 })
+//@   requires forall(func(a T, b T) bool { return cmp(a, b) >= 0 ==> cmp(b, a) <= 0 })
+//@   loop 0:
+//@     invariant (min == nil) == (idx_ == 0)
+//@     invariant min != nil ==> exists(0, idx_, func(j int) bool { return *min == seqat(it, j) })
+//@     invariant min != nil ==> forall(0, idx_, func(j int) bool { return cmp(*min, seqat(it, j)) <= 0 })
